@@ -30,7 +30,7 @@ GEN_RULE = (
     "refs, with/without redeemers), 0-3 outputs (addresses of several kinds, asset lists of 1-3 entries, datums up to "
     "depth 3, optional flag), validity, 0-2 mints and 0-1 burns over 3 policies, 0-2 withdrawals (stake and base "
     "addresses, with/without redeemer), plutus/native witnesses, donation, publish directive, collateral, signers, "
-    "metadata (texts and byte strings of length 0, 1, 4 and 64 among the values), references (lists of literals and `txid#index` texts, well- and ill-formed; output indices from {0..100, 257, 65536, 65537, 2^32-1}), vote-delegation certificates over every credential kind (key, script, address with either, malformed) whose contents the Conway reader hands back; integers from the boundary set {0, +-1, +-2^31, +-2^63, +-2^64, i128 extremes} in the "
+    "metadata (texts and byte strings of length 0, 1, 4 and 64 among the values), references (lists of literals and `txid#index` texts, well- and ill-formed; output indices from {0..100, 257, 65536, 65537, 2^32-1}), a single mint or burn quantity at every edge of the 64- and 128-bit ranges; vote-delegation certificates over every credential kind (key, script, address with either, malformed) whose contents the Conway reader hands back; integers from the boundary set {0, +-1, +-2^31, +-2^63, +-2^64, i128 extremes} in the "
     "boundary stream; wrong-length hashes and ill-typed fields in the malformed stream. Each is compiled by the real "
     "Compiler::compile (twice) and the payload read by the Lean CBOR/Conway reader. Non-trivial = every case; "
     "distinct = distinct (template, network)"
